@@ -106,6 +106,35 @@ package hessian
 //@   ensures [C05:def-appended] err == nil ==> len(d.clsDefList) >= len(old(d.clsDefList)) + 1
 //@   ensures [C06:tables-grow] len(d.clsDefList) >= len(old(d.clsDefList)) && len(d.refList) >= len(old(d.refList)) && len(d.typList) >= len(old(d.typList))
 
+// ---------------------------------------------------------------- stepping over a value (C05, C14)
+
+//@ func (*Decoder).skipValue
+//@   depth [C14:decode-depth] rank 3 measure len(@in) - @pos
+//@   assigns @pos, @E, @declared, @rset, @nvals, @selfregs, @lastreader, @calls, @dstartcls, @dstartrefs, @dstarttyps, d.typList, d.refList, d.clsDefList
+//@   summary @nvals = old(@nvals) + ite(err == nil, 1, 0)
+//@   summary @selfregs = old(@selfregs)
+//@   summary @calls = old(@calls)
+//@   ensures [C05,C14:skip-consumes] err == nil ==> @pos >= old(@pos) + 1
+//@   ensures [C06:tables-grow] len(d.clsDefList) >= len(old(d.clsDefList)) && len(d.refList) >= len(old(d.refList)) && len(d.typList) >= len(old(d.typList))
+
+//@ func (*Decoder).skipTagged
+//@   depth [C14:decode-depth] rank 2 measure len(@in) - @pos + 1
+//@   assigns @pos, @E, @declared, @rset, @nvals, @selfregs, @lastreader, @calls, @dstartcls, @dstartrefs, @dstarttyps, d.typList, d.refList, d.clsDefList
+//@   loop 1 invariant [C14,C05:skip-object-fields] 0 <= i && len(d.clsDefList) >= len(old(d.clsDefList)) && len(d.refList) >= len(old(d.refList)) && len(d.typList) >= len(old(d.typList))
+//@   loop 1 decreases count - i
+//@   loop 2 invariant [C14,C05:skip-map-entries] len(d.clsDefList) >= len(old(d.clsDefList)) && len(d.refList) >= len(old(d.refList)) && len(d.typList) >= len(old(d.typList))
+//@   loop 2 decreases len(@in) - @pos
+//@   ensures [C06:tables-grow] len(d.clsDefList) >= len(old(d.clsDefList)) && len(d.refList) >= len(old(d.refList)) && len(d.typList) >= len(old(d.typList))
+
+//@ func (*Decoder).skipList
+//@   depth [C14:decode-depth] rank 1 measure len(@in) - @pos + 1
+//@   assigns @pos, @E, @declared, @rset, @nvals, @selfregs, @lastreader, @calls, @dstartcls, @dstartrefs, @dstarttyps, d.typList, d.refList, d.clsDefList
+//@   loop 1 invariant [C14,C05:skip-list-variable] len(d.clsDefList) >= len(old(d.clsDefList)) && len(d.refList) >= len(old(d.refList)) && len(d.typList) >= len(old(d.typList))
+//@   loop 1 decreases len(@in) - @pos
+//@   loop 2 invariant [C14,C05:skip-list-elements] 0 <= j && len(d.clsDefList) >= len(old(d.clsDefList)) && len(d.refList) >= len(old(d.refList)) && len(d.typList) >= len(old(d.typList))
+//@   loop 2 decreases length - j
+//@   ensures [C06:tables-grow] len(d.clsDefList) >= len(old(d.clsDefList)) && len(d.refList) >= len(old(d.refList)) && len(d.typList) >= len(old(d.typList))
+
 // ---------------------------------------------------------------- lists (C03, C04, C06, C14)
 
 //@ func preallocLen
